@@ -1449,6 +1449,41 @@ def m_sat_arith(ex, callee, args):
     return BV(z3.If(ovf, to_z3bv(lim), to_z3bv(val)), a.ty)
 
 
+INTS = r'(u8|u16|u32|u64|u128|usize|i8|i16|i32|i64|i128|isize)'
+
+
+@model(r'^core::num::<impl %s>::(wrapping_mul|wrapping_neg|wrapping_add|wrapping_sub|checked_add|checked_sub|checked_mul|checked_neg|unsigned_abs|wrapping_abs)$' % INTS)
+def m_int_methods(ex, callee, args):
+    op = callee.split('::')[-1]
+    a = args[0]
+    bits, signed = INT_TYPES[a.ty]
+    if op == 'wrapping_neg':
+        return ex.int_binop('Sub', mk_int(0, a.ty), a)
+    if op in ('wrapping_add', 'wrapping_sub', 'wrapping_mul'):
+        return ex.int_binop({'add': 'Add', 'sub': 'Sub', 'mul': 'Mul'}[op[-3:]], a, args[1])
+    if op in ('unsigned_abs', 'wrapping_abs'):
+        neg = ex.int_binop('Sub', mk_int(0, a.ty), a)
+        uty = a.ty if (op == 'wrapping_abs' or not signed) else ('u' + a.ty[1:])
+        if isinstance(a.v, int):
+            v = neg.v if (signed and a.v < 0) else a.v
+            return mk_int(v % (1 << bits), uty) if op == 'unsigned_abs' else mk_int(v, uty)
+        x = to_z3bv(a)
+        return BV(z3.If(x < 0, to_z3bv(neg), x) if signed else x, uty)
+    if op == 'checked_neg':
+        if isinstance(a.v, int):
+            ovf = (a.v == -(1 << (bits - 1))) if signed else (a.v != 0)
+        else:
+            x = to_z3bv(a)
+            ovf = (x == z3.BitVecVal(1 << (bits - 1), bits)) if signed else (x != 0)
+        val = ex.int_binop('Sub', mk_int(0, a.ty), a)
+    else:
+        r = ex.int_binop({'add': 'AddWithOverflow', 'sub': 'SubWithOverflow', 'mul': 'MulWithOverflow'}[op[-3:]], a, args[1])
+        val, ovf = r.items
+    if isinstance(ovf, bool):
+        return none() if ovf else some(val)
+    return none() if ex.branch(ovf) else some(val)
+
+
 # ----------------------------------------------------------------------
 # more iterator adaptors / consumers
 
